@@ -67,8 +67,20 @@ def install(ex, db):
         while not isinstance(wv, M.WatchV):
             if isinstance(wv, Agg) and len(wv.fields) >= 1: wv = M.deref_all(wv.fields[0])
             else: raise Unmodelled('Watch::lock receiver')
-        return EnvFuture('watch.lock', lambda e2: ready(wv))
+        def respond(e2):
+            hook = getattr(e2, 'at_lock', None)
+            if hook is not None: hook(e2, wv)
+            return ready(wv)
+        return EnvFuture('watch.lock', respond)
     ex.model_path('zksync_consensus_network::watch::Watch::lock', watch_lock)
+
+    def watch_subscribe(e, n, a):
+        wv = M.deref_all(a[0])
+        while not isinstance(wv, M.WatchV):
+            if isinstance(wv, Agg) and len(wv.fields) >= 1: wv = M.deref_all(wv.fields[0])
+            else: raise Unmodelled('Watch::subscribe receiver')
+        return coro.WatchReceiver(wv)
+    ex.model(r'zksync_consensus_network::watch::Watch::<.*>::subscribe', watch_subscribe)
     ex.model(r'(tokio|zksync_concurrency)::sync::watch::Sender::<.*>::borrow', lambda e, n, a: coro.WatchRef(M.deref_all(a[0])))
     ex.model(r'<(tokio|zksync_concurrency)::sync::watch::Ref<.*> as std::ops::Deref>::deref', lambda e, n, a: Ref(M.deref_all(a[0]).watch.cell))
     ex.model(r'<(tokio|zksync_concurrency)::sync::MutexGuard<.*> as std::ops::Deref(Mut)?>::deref(_mut)?', lambda e, n, a: a[0])
@@ -194,6 +206,58 @@ def check_update(rep, db, N, B, via_watch):
     return viol, len(res)
 
 
+def check_watch_interference(rep, db, N):
+    """another writer publishes a strictly newer valid announcement (for a key this batch does not touch) while this
+    update waits for the writer lock: whatever this update does afterwards, that announcement must still be published
+    (no lost update: everything read before the lock is stale)"""
+    ex = Exec(db, loop_bound=20); ex.hash_order_insertion = True
+    install(ex, db)
+    mkn = Mk(db, NETC)
+
+    def body(ex):
+        sched, book, pre, batch = build(ex, db, N, 1)
+        oki = ex.choose(N, 'other_key')
+        ex.assume(z3.BoolVal(all(d.ki != oki for d in batch)))
+        other = Ann(ex, mkn, 'other', oki, valid=True)
+        if oki in pre: ex.assume(other.newer_than(pre[oki]))
+        data = VecV([d.arc for d in batch], 'slice')
+        watch = M.WatchV(book)
+        w_t = mkn.ty(r'zksync_consensus_network::gossip::validator_addrs::ValidatorAddrsWatch')
+        inner_t = db.ty(NETC, w_t['info']['variants'][0]['fields'][0]['ty'])
+        inner = Agg('adt', inner_t, 0, [watch] + [Opaque('x')] * (len(inner_t['info']['variants'][0]['fields']) - 1))
+        vw = Agg('adt', w_t, 0, [inner])
+        done = [False]
+        def at_lock(e2, wv):
+            if done[0]: return
+            done[0] = True
+            cur = fld(wv.cell.v, '0')
+            ents = [(k, c.v) for k, c in cur.entries if k.tag[1] != oki] + [(Opaque(('key', oki)), other.arc)]
+            wv.cell.v = mkn.tuple_struct(r'zksync_consensus_network::gossip::validator_addrs::ValidatorAddrs', MapV(ents, ordered=False, kind='map')); wv.version += 1
+        ex.at_lock = at_lock
+        key = db.find_one(r'zksync_consensus_network::gossip::validator_addrs::ValidatorAddrsWatch::update', kinds=('fn',))
+        r = coro.run_async(ex, key, [Ref(Cell(vw)), Ref(Cell(sched)), Ref(Cell(data))])
+        ex.at_lock = None
+        post = fld(watch.cell.v, '0')
+        return r, other, oki, post, done[0]
+    res = explore(ex, body, budget_s=900)
+    rep.absorb_stats(ex.stats)
+    viol = []; n_int = 0
+    for kind, val, pc, log in res:
+        if kind == 'panic':
+            st, m = solve(pc, None)
+            if st == 'sat': viol.append((panic_key(val), f'ValidatorAddrsWatch::update panics: {val[0]} at {val[1]}', m))
+            continue
+        r, other, oki, post, interfered = val
+        if r == 'pending' or not interfered: continue
+        n_int += 1; rep.nontrivial += 1
+        stored = {k.tag[1]: c.v for k, c in post.entries}
+        if stored.get(oki) is not other.arc:
+            st, m = solve(pc, None)
+            if st == 'sat': viol.append(('address-book:lost-update', 'an announcement published by another writer while this update waited for the writer lock is lost: the update works on a copy taken before the lock', m))
+    if n_int == 0 and not viol: raise Unmodelled('no path reaches the writer lock (vacuous)')
+    return viol, len(res)
+
+
 def check_commute(rep, db, N):
     ex = Exec(db, loop_bound=20); ex.hash_order_insertion = True
     install(ex, db)
@@ -235,7 +299,7 @@ def witness(m):
 def run(rep, db, tier, seed):
     rep.engines.append('mirsym (MIR symbolic execution + z3)')
     rep.trusted += M.TRUSTED + env.TRUSTED + ['im::HashMap = association list (iteration order irrelevant for the executed functions)', 'network::watch::Watch = mutex-guarded cell; lock() always succeeds; ideal signatures']
-    rep.assumptions += ['gossip scheduling between nodes is outside; concurrent updates are serialised by the Watch mutex']
+    rep.assumptions += ['gossip scheduling between nodes is outside; concurrent updates are serialised by the Watch mutex (one complete update of another writer is interleaved at the lock acquisition)']
     N = 2 if tier == 'quick' else 3
     Bs = [1, 2] if tier == 'quick' else [1, 2, 3]
     rep.bounds = dict(committee=N, outsider_keys=1, batch_sizes=Bs, versions='symbolic u64', timestamps='symbolic i64')
@@ -255,5 +319,6 @@ def run(rep, db, tier, seed):
     for B in Bs:
         handle(f'ValidatorAddrs::update, batch of {B}', check_update, N, B, False)
         handle(f'ValidatorAddrsWatch::update (published book), batch of {B}', check_update, N, B, True)
+    handle('ValidatorAddrsWatch::update with an interfering writer', check_watch_interference, N)
     handle('commutation of two valid announcements', check_commute, N)
     rep.extra['explanation'] = 'one batch applied to an arbitrary authentic address book on the real MIR; all versions, timestamps and signature validities covered by solver verdicts'
